@@ -1,5 +1,6 @@
 import VarmqVerif.Model.Res
 import VarmqVerif.Model.Job
+import VarmqVerif.Model.Sig
 import Driver.Parse
 /-!
   Correspondence replay (DESIGN.md §3.3 (a)): the raw event lines of an implementation execution
@@ -236,4 +237,67 @@ def feed (st : RState St) (lineNo : Nat) (l : RawLine) : RState St :=
       | .error e => .rejected lineNo s!"{e} @ {l.tag} {l.g} {" ".intercalate l.f}"
   | r => r
 end JobMap
+end VarmqVerif.Driver
+
+namespace VarmqVerif.Driver
+-- ---------------------------------------------------------------- Sig
+namespace SigMap
+open Sig
+
+structure St where
+  s : State := Sig.init 1
+  queue : Option String := none      -- the single queue this model follows
+  sigMade : Bool := false
+
+def isQueueObj (o : String) : Bool := o.startsWith "Queue#" || o.startsWith "PriorityQueue#"
+
+def events (x : St) (l : RawLine) : Except String (St × List Ev) :=
+  let g := l.g
+  let s := x.s
+  match l.tag, l.f with
+  | "A", _ => .error "NA adapter-backed queue"
+  | "E", [fn, obj, op, arg, res] =>
+    if obj.startsWith "worker#" && !(obj.startsWith "worker#1.") then .error "NA second worker"
+    else if obj.endsWith ":eventLoopSignal" then
+      if op == "make" then (if x.sigMade then .error "NA restart (second signal channel)" else .ok ({ x with sigMade := true }, []))
+      else if op == "close" then .error "NA stop (signal channel closed)"
+      else if op == "recv" then (if res == "closed" then .error "NA stop" else .ok (x, [.recvTok g]))
+      else if op == "trysend" then .ok (x, [.notify g (res == "true")])
+      else .error s!"unmodelled operation {op} on the signal channel in {fn}"
+    else if obj == "worker#1.status" then
+      if op == "store" then .ok (x, [.stStatus g (natOf arg)])
+      else if op == "load" && fn == "worker.IsRunning" && isDisp s g && (s.dph == .fresh || s.dph == .busy) then .ok (x, [.dStatus g (natOf res)])
+      else .ok (x, [])
+    else if obj == "worker#1.curProcessing" then
+      if op == "load" && fn == "worker.goEventLoop$1" then .ok (x, [.dCur g (natOf res)])
+      else if op == "cas" && res == "true" then (if isDisp s g then .ok (x, [.dCasOk g]) else .error "reserve CAS by a goroutine that is not the event loop")
+      else if op == "add" then (if isDisp s g then .ok (x, [.dRel g (natOf res)]) else .ok (x, [.relX g (natOf res)]))
+      else .ok (x, [])
+    else if obj == "worker#1.concurrency" then
+      if op == "load" && fn == "worker.goEventLoop$1" then .ok (x, [.dConc g (natOf res)])
+      else if op == "store" then
+        if fn.startsWith "new" then .ok ({ x with s := Sig.init (natOf arg) }, []) else .ok (x, [.stConc g (natOf arg)])
+      else .ok (x, [])
+    else if isQueueObj obj && (op.startsWith "ret:") then
+      let q := x.queue.getD obj
+      let x := { x with queue := some q }
+      if q != obj then .error "NA several queues"
+      else if op == "ret:Len" then (if isDisp s g && s.dph == .sawRoom then .ok (x, [.dLen g (natOf res)]) else .ok (x, []))
+      else if op == "ret:Enqueue" then (if res == "true" then .ok (x, [.enq g]) else .ok (x, []))
+      else if op == "ret:Dequeue" then (if res.endsWith ",true" then (if isDisp s g then .ok (x, [.dDeq g]) else .ok (x, [.deqX g])) else .ok (x, []))
+      else .ok (x, [])
+    else .ok (x, [])
+  | _, _ => .ok (x, [])
+
+def feed (st : RState St) (lineNo : Nat) (l : RawLine) : RState St :=
+  match st with
+  | .ok x =>
+    match events x l with
+    | .error e => if e.startsWith "NA" then .na e else .rejected lineNo s!"{e} @ {l.tag} {l.g} {" ".intercalate l.f}"
+    | .ok (x', evs) =>
+      match feedAll Sig.step x'.s evs with
+      | .ok s' => .ok { x' with s := s' }
+      | .error e => .rejected lineNo s!"{e} @ {l.tag} {l.g} {" ".intercalate l.f}"
+  | r => r
+end SigMap
 end VarmqVerif.Driver
